@@ -13,17 +13,25 @@ pub struct RwCase {
     pub op: usize,
     pub size: usize,
     pub prior: usize,
+    /// File::copy only: bytes read from the source handle before the copy (0 = fresh handle, usize::MAX = read to EOF)
+    pub pre_read: usize,
 }
 
 impl RwCase {
     pub fn to_json(&self) -> Value {
-        tag_fs(json!({"phase": "rwcopy", "op": OPS[self.op], "size": self.size, "dest_prior": PRIORS[self.prior]}))
+        tag_fs(json!({"phase": "rwcopy", "op": OPS[self.op], "size": self.size, "dest_prior": PRIORS[self.prior],
+                      "pre_read": if self.pre_read == usize::MAX { -1i64 } else { self.pre_read as i64 }}))
     }
     pub fn from_json(v: &Value) -> Option<RwCase> {
         Some(RwCase {
             op: OPS.iter().position(|o| Some(*o) == v["op"].as_str())?,
             size: v["size"].as_u64()? as usize,
             prior: PRIORS.iter().position(|o| Some(*o) == v["dest_prior"].as_str())?,
+            pre_read: match v["pre_read"].as_i64() {
+                Some(-1) => usize::MAX,
+                Some(n) => n as usize,
+                None => 0,
+            },
         })
     }
 }
@@ -45,7 +53,16 @@ pub fn cases(thorough: bool) -> Vec<RwCase> {
                 continue; // nothing is shorter than empty
             }
             for op in 0..OPS.len() {
-                out.push(RwCase { op, size, prior });
+                out.push(RwCase { op, size, prior, pre_read: 0 });
+            }
+            // File::copy on a handle that has already been read from: the copy is of the FILE, whatever the handle's position
+            if size > 0 {
+                for pre_read in [1usize, size / 2, size - 1, usize::MAX] {
+                    if pre_read == 0 || (pre_read != usize::MAX && pre_read >= size) {
+                        continue;
+                    }
+                    out.push(RwCase { op: 2, size, prior, pre_read });
+                }
             }
         }
     }
@@ -94,13 +111,35 @@ pub fn run_case(block: &Path, c: &RwCase, r: &mut Report) {
     let res: Result<Result<(), String>, String> = match c.op {
         0 | 1 => catch(|| tiny_std::fs::write(&udst, &data).map_err(|e| format!("{e}"))),
         2 => catch(|| {
-            let f = tiny_std::fs::File::open(&usrc).map_err(|e| format!("open source: {e}"))?;
+            let mut f = tiny_std::fs::File::open(&usrc).map_err(|e| format!("open source: {e}"))?;
+            if c.pre_read > 0 {
+                use tiny_std::io::Read;
+                let want = if c.pre_read == usize::MAX { c.size + 16 } else { c.pre_read };
+                let mut buf = vec![0u8; want];
+                let mut got = 0;
+                while got < want {
+                    match f.read(&mut buf[got..]) {
+                        Ok(0) => break,
+                        Ok(n) => got += n,
+                        Err(e) => return Err(format!("pre-read of the source: {e}")),
+                    }
+                }
+            }
             f.copy(&udst).map(|_| ()).map_err(|e| format!("{e}"))
         }),
         _ => catch(|| tiny_std::fs::copy_file(&usrc, &udst).map(|_| ()).map_err(|e| format!("{e}"))),
     };
     clear_case();
-    let what = format!("{opname} of {} bytes onto a destination that was: {}", c.size, PRIORS[c.prior]);
+    let what = format!(
+        "{opname} of {} bytes{} onto a destination that was: {}",
+        c.size,
+        match c.pre_read {
+            0 => String::new(),
+            usize::MAX => " (source handle read to EOF before)".into(),
+            n => format!(" (source handle had {n} bytes read before)"),
+        },
+        PRIORS[c.prior]
+    );
     match res {
         Err(p) => {
             r.outcome("panic");
